@@ -753,8 +753,22 @@ func applyFault(sc *Scenario, class string, r *Rng, shape int) (errLike string) 
 		}
 		return "tillage date"
 	case "start_year_mismatch":
-		sc.ExtraArgs = append(sc.ExtraArgs, "StartYear="+strconv.Itoa(sc.Start.Y+[]int{1, -1, 10}[shape%3]))
-		return "does not match"
+		off := []int{1, -1, 10, 60}[shape%4]
+		if off >= 10 {
+			// a start year behind the END of the simulation (a typing slip: 2080 for 1980), with a multi-year weather layout
+			// (the number of years to load is computed from start year and end date there)
+			if sc.Weather.Layout == 0 {
+				sc.Weather.Layout = 1 + shape%2
+				if sc.ETpot == 5 {
+					sc.ETpot = 3
+				}
+				if sc.Weather.Layout == 2 && sc.Weather.NumHeader == 3 {
+					sc.Weather.NumHeader = 2
+				}
+			}
+		}
+		sc.ExtraArgs = append(sc.ExtraArgs, "StartYear="+strconv.Itoa(sc.Start.Y+off))
+		return "start year"
 	}
 	return ""
 }
